@@ -75,12 +75,12 @@ pub fn decode_bytes(bs: &[u8]) -> String {
 }
 
 pub fn decode(parts: &[&str]) -> String {
-  decode_bytes(&crate::unhex(parts[1]))
+  decode_bytes(&impl_driver::unhex(parts[1]))
 }
 
 // DSWEEP\t<prefixhex>\t<n>: all byte strings prefix ++ s, |s| = n, one result per line
 pub fn sweep(parts: &[&str]) -> String {
-  let prefix = crate::unhex(parts[1]);
+  let prefix = impl_driver::unhex(parts[1]);
   let n: usize = parts[2].parse().unwrap();
   let total: u64 = 1u64 << (8 * n);
   let mut out = String::new();
@@ -95,4 +95,16 @@ pub fn sweep(parts: &[&str]) -> String {
     out.push_str(&decode_bytes(&bs));
   }
   out
+}
+
+fn dispatch(parts: &[&str]) -> String {
+  match parts[0] {
+    "D" => decode(parts),
+    "DSWEEP" => sweep(parts),
+    _ => "?".to_string(),
+  }
+}
+
+fn main() {
+  impl_driver::serve(dispatch);
 }
